@@ -99,6 +99,7 @@ struct SemModel
     std::vector<std::string> compName;   // optional component names (default comp<i>)
     int voi = -1;
     bool nlaGuess = true;
+    bool nlaInterleave = false;          // write the equations of the implicit systems round-robin (system 0 eq 0, system 1 eq 0, ...)
     std::vector<int> order;              // evaluation order of non-NLA quantities (topological)
 };
 struct SemOptions
@@ -116,6 +117,7 @@ struct SemOptions
     int exprDepth = 2;
     bool initByConstant = true;
     int nlaSystems = 1;                  // number of independent implicit systems (when nla)
+    bool nlaInterleave = false;          // all systems in ONE component, >= 2 equations each, equations written round-robin
     bool nlaGuess = true;                // unknowns of implicit systems carry an initial_value (the solver's initial guess)
     bool nlaDense = false;               // every equation of an implicit system reads every unknown
     bool odeSelfRate = false;            // force one ODE of the form dx/dt = x (a bare reference to its own state)
